@@ -122,7 +122,10 @@ func (h *Sources) Add(name string, hist Source) {
 		h.names = make([]string, 0)
 	}
 
-	h.names = append(h.names, name)
+	if _, found := h.list[name]; !found {
+		h.names = append(h.names, name)
+	}
+
 	h.list[name] = hist
 }
 
@@ -142,6 +145,11 @@ func (h *Sources) Delete(sources ...string) {
 	if len(sources) == 0 {
 		h.list = make(map[string]Source)
 		h.names = make([]string, 0)
+		h.sourcePos = 0
+
+		if !h.infer {
+			h.hpos = -1
+		}
 
 		return
 	}
@@ -274,6 +282,11 @@ func (h *Sources) GetLast() string {
 // The active one is used in completions, and all history-related commands.
 // If next is false, the engine cycles to the previous source.
 func (h *Sources) Cycle(next bool) {
+	if len(h.names) == 0 {
+		h.sourcePos = 0
+		return
+	}
+
 	switch next {
 	case true:
 		h.sourcePos++
@@ -298,8 +311,12 @@ func (h *Sources) OnLastSource() bool {
 
 // Current returns the current/active history source.
 func (h *Sources) Current() Source {
-	if len(h.list) == 0 {
+	if len(h.list) == 0 || len(h.names) == 0 {
 		return nil
+	}
+
+	if h.sourcePos < 0 || h.sourcePos >= len(h.names) {
+		h.sourcePos = 0
 	}
 
 	return h.list[h.names[h.sourcePos]]
@@ -578,6 +595,10 @@ func Complete(h *Sources, forward, filter bool, maxLines int, regex *regexp.Rege
 
 // Name returns the name of the currently active history source.
 func (h *Sources) Name() string {
+	if h.sourcePos < 0 || h.sourcePos >= len(h.names) {
+		return ""
+	}
+
 	return h.names[h.sourcePos]
 }
 
